@@ -384,6 +384,9 @@ func mergeRoots(
 
 			newTree, err := tree.Clone(ctx)
 			if err != nil {
+				if !skippable(err, skipUnreadable) {
+					return nil, nil, 0, fmt.Errorf("clone for %v: %w", key, err)
+				}
 				if cfg.LogFunc != nil && skipUnreadable {
 					cfg.LogFunc(fmt.Sprintf("skipping merge un-cloneable tree %v: %v", key, err))
 				}
@@ -394,6 +397,9 @@ func mergeRoots(
 				return nil, nil, 0, err
 			}
 			if err != nil {
+				if !skippable(err, skipUnreadable) {
+					return nil, nil, 0, fmt.Errorf("merge %v: %w", key, err)
+				}
 				if cfg.LogFunc != nil && skipUnreadable {
 					cfg.LogFunc(fmt.Sprintf("skipping merge un-cloneable tree %v: %v", key, err))
 				}
@@ -421,6 +427,15 @@ func mergeRoots(
 	}
 
 	return tree, mergedRoots, unmergedRoots, nil
+}
+
+// skippable reports whether a version may be left out of the merge: only
+// when versions were listed (not asked for by name) and the store says one
+// of its objects does not exist (delayed, or vacuumed), never because a
+// request failed or was cancelled.
+func skippable(err error, skipUnreadable bool) bool {
+	var ae awserr.Error
+	return skipUnreadable && errors.As(err, &ae) && ae.Code() == s3.ErrCodeNoSuchKey
 }
 
 func loadRootFromAny(ctx context.Context, persist []mast.Persist, key string) (*crdt.Root, []byte, error) {
